@@ -720,6 +720,12 @@ func (x *Exec) step(s *State, f *Frame, instr ssa.Instruction) []*State {
 			if obj := in.Object(); obj != nil {
 				if _, isVar := obj.(*types.Var); isVar {
 					v := x.val(s, f, in.X)
+					// a variable that lives in a cell (captured or address-taken) stays bound to
+					// the cell: a later debug reference to a loaded copy must not freeze its value
+					if old, ok := f.Vars[id.Name].(*PtrVal); ok && f.VarAddr[id.Name] && !in.IsAddr && old.Cell != nil && old.Cell.Name == id.Name {
+						f.Idx++
+						return nil
+					}
 					f.Vars[id.Name] = v
 					f.VarAddr[id.Name] = in.IsAddr
 				}
